@@ -5,10 +5,12 @@
     ([NS]); every job of [s'] is a job of [s] with the same failure limit and the same task ids,
     and its failure counter grew by exactly the number of [EvFailed] events of that job in [ext]
     ([onfailed]); the job-id counter is unchanged; a job that failed a task existed in [s].
-    No invariant is needed: this is a frame property of the code.  Proved here for the job-layer
-    primitives and the reactor / server functions built on them ([JX]); [NA ext] marks the pieces
-    that emit no [EvAborted].  The only primitives that emit one are [abort_tasks] (shape in
-    [abort_tasks_JE]) and [process_task_failed]. *)
+    This is a frame property of the code (no invariant needed).  Proved here for the job-layer
+    primitives ([JQ]: ... and no [EvAborted] is emitted, [NA]).  The only primitives that emit an
+    abort are [abort_tasks] (shape in [abort_tasks_JE]) and [process_task_failed]:
+    [process_task_failed_AC] (with the counters exact, [HOK]) - the abort of the dependents is
+    IMMEDIATELY followed by the failure (no [EvCompleted] in between: the failing task is still
+    active), and the second abort happens only with the limit exceeded. *)
 From HQ Require Import Base.Prelude Cluster.Types Cluster.Core Cluster.Reactor Cluster.Worker Cluster.Server Cluster.Sys Cluster.Monitors Cluster.ProofsJob Cluster.ProofsMore Cluster.ProofsTerminal Cluster.ProofsStep Cluster.ProofsFinal Cluster.BijBase Cluster.BijHq Cluster.ProofsOnce Cluster.AbortCauseBase.
 From Coq Require Import ZArith Lia.
 Local Open Scope N_scope.
@@ -387,3 +389,5 @@ Proof.
     exists j0, mf. split; [exact Hf0|]. split; [congruence | lia].
   - exfalso. cbn [app] in Em2. inversion Em2. apply (NA_in _ ts Aq3). match goal with X : q3 = _ |- _ => rewrite X end. apply in_elt.
 Qed.
+
+Print Assumptions process_task_failed_AC.
